@@ -12,15 +12,17 @@ RULE = ('the real sproc.appmonitor._run_sync loop (its ChildrenWatch / ExistingD
         'and apply the next scripted disturbances": instances dying, monitor count/policy changes (targets 0-12, fifo/lifo/'
         'unset; a count-only change keeps the configured policy), monitors created and deleted, the connection of the monitor '
         'dropping and coming back (SUSPENDED/CONNECTED, nothing reconfigured), and the REST boundary failing with each handled class (NotFound, BadRequest, '
-        'Validation) or an unhandled one, for creates and deletes. restclient.post is replaced by a fake that records the call '
-        'and dispatches to masterapi.create_apps / delete_apps. Oracle per evaluation and monitor from the recorded calls: '
+        'Validation) or an unhandled one, for creates and deletes, connections refused before anything is processed, and a reply '
+        'lost after the request was processed. requests.post is replaced by a stand-in for the cell API that records what the '
+        'server processes and dispatches to masterapi.create_apps / delete_apps; the real restclient (status handling, retry '
+        'loop) runs above it. Oracle per evaluation and monitor from the recorded calls: '
         'count requested <= target - current; <= floor of an independent token bucket (2*target/h, cap 2*target, reset on '
         'reconfiguration, debit on success); on surplus exactly current-target instances deleted, oldest first (fifo/unset) '
         'or newest first (lifo) - the policy being the one the operator configured last, recorded by the harness; never create and delete for one application in one evaluation; no call for suspended '
         '(until the deadline) or deleted monitors; bounded progress: once faults stop and the budget is full, current == '
         'target within 2 evaluations. Non-trivial: a history with a handled failure (suspension), a scale-down and a '
         'rate-limited evaluation; distinct by hash of the per-evaluation call kinds.')
-ASSUMPTIONS = ['in-memory ZooKeeper fake; restclient.post replaced (REST boundary) and dispatched to masterapi on the same ZooKeeper',
+ASSUMPTIONS = ['in-memory ZooKeeper fake; requests.post replaced (HTTP boundary; kerberos auth object and the retry sleep of restclient stubbed) and dispatched to masterapi on the same ZooKeeper',
                'time.time / time.sleep rebound: virtual clock with zero tick, the loop is stopped by the sleep hook after N evaluations',
                'alerts are written by the real alert.create into a temp dir']
 BUDGET = {'quick': (40, 30.0), 'thorough': (800, 240.0)}
@@ -46,7 +48,10 @@ def run(ctx):
     from treadmill.scheduler import masterapi
     from treadmill.sproc import appmonitor
 
-    real_sleep, real_post, real_reeval = time.sleep, restclient.post, appmonitor.reevaluate
+    import requests
+    import types
+    real_sleep, real_post, real_reeval = time.sleep, requests.post, appmonitor.reevaluate
+    real_rc_time, real_auth = restclient.time, restclient._krb_auth         # pylint: disable=protected-access
     for idx, rng in ctx.cases():
         clock = env.VClock(tick=0.0)
         clock.install()
@@ -69,6 +74,8 @@ def run(ctx):
         calls = []        # calls of the current evaluation
         fail_next = {}    # name -> exception kind for the next create
         fail_delete = [0]
+        refuse = [0]          # the next N connections are refused before anything is processed
+        drop_reply = [False]  # the next processed create loses its reply
         n_eval = [0]
         total = rng.randint(25, 70)
         kinds = []
@@ -112,32 +119,57 @@ def run(ctx):
                     ref[name] = dict(count=count, policy=intent.get(name), tokens=2.0 * count,
                                      last=node.mtime / 1000.0, rate=2.0 * count / 3600.0, czxid=node.czxid)
 
-        def fake_post(api, url, payload=None, headers=None, **_kw):
-            if url.startswith('/instance/_bulk/delete'):
+        class _Reply:
+            """What requests.post returns."""
+            def __init__(self, status, body=None):
+                self.status_code = status
+                self._body = body if body is not None else {'message': 'injected'}
+                self.content = b'{}'
+                self.text = 'err'
+
+            def json(self):
+                return self._body
+
+        def fake_requests_post(url, json=None, data=None, **_kw):
+            """The cell API behind the REST boundary (requests.post): the real restclient (status handling,
+            retry loop) runs above it.  A call is recorded when the server processes it."""
+            payload = json if json is not None else data
+            path = url[len('http://api'):]
+            drop = drop_reply[0]
+            if refuse[0] > 0:
+                refuse[0] -= 1
+                ctx.count('connections_refused_before_processing')
+                if path.startswith('/instance/_bulk/delete'):
+                    calls.append(('delete-failed', None, list(payload['instances'])))
+                else:
+                    name_, _, q_ = path[len('/instance/'):].partition('?count=')
+                    calls.append(('create-failed:other', name_, int(q_)))
+                raise requests.exceptions.ConnectionError('refused (injected): nothing was processed')
+            if path.startswith('/instance/_bulk/delete'):
                 inst = list(payload['instances'])
                 calls.append(('delete', None, inst))
                 if fail_delete[0]:
                     fail_delete[0] -= 1
                     calls[-1] = ('delete-failed', None, inst)
-                    raise restclient.MaxRequestRetriesError(5)
+                    return _Reply(500)
                 masterapi.delete_apps(admin, inst, 'monitor')
-                return _Resp()
-            name, _, q = url[len('/instance/'):].partition('?count=')
+                return _Reply(200, {})
+            name, _, q = path[len('/instance/'):].partition('?count=')
             k = int(q)
             kind = fail_next.pop(name, None)
             if kind is not None:
                 calls.append(('create-failed:' + kind, name, k))
-                if kind == 'notfound':
-                    raise restclient.NotFoundError('no such app')
-                if kind == 'badrequest':
-                    raise restclient.BadRequestError(_Resp())
-                if kind == 'validation':
-                    raise restclient.ValidationError(_Resp())
-                raise restclient.MaxRequestRetriesError(5)
+                return _Reply({'notfound': 404, 'badrequest': 400, 'validation': 424}.get(kind, 500))
             calls.append(('create', name, k))
             if k > 0:
                 masterapi.create_apps(admin, name, {'memory': '1G'}, k, 'monitor')
-            return _Resp()
+            if drop:
+                # the API processed the request; the connection drops while the reply is read
+                drop_reply[0] = False
+                calls[-1] = ('create-dropped', name, k)
+                ctx.count('replies_dropped_after_processing')
+                raise requests.exceptions.ChunkedEncodingError('connection broken (injected): the request WAS processed')
+            return _Reply(200, {'instances': []})
 
         def scheduled_of(name):
             return sorted(c for c in srv.children(z.SCHEDULED) if c.rpartition('#')[0] == name)
@@ -201,7 +233,10 @@ def run(ctx):
                 cs = per.get(name, [])
                 creates = [c for c in cs if c[0].startswith('create')]
                 deletes = [c for c in cs if c[0].startswith('delete')]
-                if len(creates) > 1 or len(deletes) > 1:
+                # the REST client re-sends a request that was answered with a server error (nothing processed);
+                # at most one create and one delete per evaluation may have been processed
+                if len([c for c in creates if c[0] in ('create', 'create-dropped')]) > 1 or len([c for c in deletes if c[0] == 'delete']) > 1 or \
+                        len([c for c in creates if c[0] != 'create' and not c[0].endswith(':other')]) > 1:
                     viol('repeated-call-in-one-evaluation', '%s: %r' % (name, cs))
                 if r['count'] > len(cur):
                     needed = r['count'] - len(cur)
@@ -220,6 +255,9 @@ def run(ctx):
                         if kind == 'create':
                             r['tokens'] -= k
                             ctx.count('creates_ok')
+                        elif kind == 'create-dropped':
+                            # processed, but the monitor only saw a broken connection: it cannot account for it
+                            ctx.count('creates_processed_reply_lost')
                         elif kind.split(':')[1] in ('notfound', 'badrequest', 'validation'):
                             susp[name] = (now + 300.0, r['czxid'])
                             ctx.count('handled_failures')
@@ -270,6 +308,8 @@ def run(ctx):
                 if i == quiet_from:
                     fail_next.clear()
                     fail_delete[0] = 0
+                    refuse[0] = 0
+                    drop_reply[0] = False
                     clock.advance(7200.0)
                 else:
                     clock.advance(1.0)
@@ -285,7 +325,7 @@ def run(ctx):
                 return
             clock.advance(rng.choice([1, 1, 1, 1, 5, 30, 120, 300, 301, 1800, 3600, 7200]) if rng.random() < 0.35 else 1.0)
             for _ in range(rng.choice([0, 1, 1, 2])):
-                op = rng.choice(['die', 'die', 'die', 'count', 'count', 'policy', 'delmon', 'newmon', 'fail', 'fail', 'faildel', 'flap'])
+                op = rng.choice(['die', 'die', 'die', 'count', 'count', 'policy', 'delmon', 'newmon', 'fail', 'fail', 'faildel', 'flap', 'refuse', 'drop'])
                 name = rng.choice(apps)
                 if op == 'die':
                     cur = scheduled_of(name)
@@ -303,6 +343,10 @@ def run(ctx):
                     fail_next[name] = rng.choice(['notfound', 'badrequest', 'validation', 'other'])
                 elif op == 'faildel':
                     fail_delete[0] = 1
+                elif op == 'refuse':
+                    refuse[0] = rng.choice([1, 2, 4, 7])
+                elif op == 'drop':
+                    drop_reply[0] = True
                 elif op == 'flap':
                     # the monitor's connection drops and comes back: no monitor was reconfigured
                     zk.flap()
@@ -316,14 +360,18 @@ def run(ctx):
                 if rng.random() < 0.5:
                     masterapi.create_apps(admin, name, {'memory': '1G'}, rng.randint(1, 14), 'test')
             time.sleep = sleep_hook
-            restclient.post = fake_post
+            requests.post = fake_requests_post
+            # the retry loop of the REST client sleeps between attempts: virtual time, not an evaluation
+            restclient.time = types.SimpleNamespace(time=time.time, sleep=clock.advance)
+            restclient._krb_auth = lambda: None        # pylint: disable=protected-access
             appmonitor.reevaluate = reevaluate
             try:
                 appmonitor._run_sync('http://api', alerts, False)     # pylint: disable=protected-access
             except _Stop:
                 pass
         finally:
-            time.sleep, restclient.post, appmonitor.reevaluate = real_sleep, real_post, real_reeval
+            time.sleep, requests.post, appmonitor.reevaluate = real_sleep, real_post, real_reeval
+            restclient.time, restclient._krb_auth = real_rc_time, real_auth      # pylint: disable=protected-access
             env.VClock.uninstall()
             shutil.rmtree(alerts, ignore_errors=True)
         nt = flags['handled'] and flags['scaledown'] and flags['limited']
